@@ -148,6 +148,29 @@ theorem C13_ids_total_partial (enum : List String → List String) (w : World) (
   obtain ⟨e, he, heo⟩ := List.mem_map.1 this
   exact ⟨e.1, by have := hcd e he; rw [← heo]; exact this⟩
 
+/-- **C13_decorator_exact.** Outside the F8a class, for pairwise different registered function objects
+(what `_raise_error_when_task_functions_are_duplicated` guarantees) and every iteration order: a
+successful parse yields every registered function exactly once, under pairwise distinct names. -/
+theorem C13_decorator_exact (enum : List String → List String) (w : World) (tasks : List ObjId) (d : Dict)
+    (hperm : ∀ l, (enum l).Perm l) (hnd : tasks.Nodup) (hnc : NoClash w tasks) (h : parseCollected enum w tasks = some d) :
+    (d.map Prod.fst).Nodup ∧ (d.map Prod.snd).Nodup ∧ ∀ o, o ∈ d.map Prod.snd ↔ o ∈ tasks := by
+  have hs := C13_ids_sound enum w tasks d h
+  refine ⟨hs.1, ?_, fun o => ⟨?_, ?_⟩⟩
+  · unfold parseCollected at h
+    have hp := hperm (dedup ((parsedOf w tasks).map (·.1)))
+    have hpn : ((parsedOf w tasks).map Prod.snd).Nodup := by
+      have : (parsedOf w tasks).map Prod.snd = tasks := by
+        unfold parsedOf; rw [List.map_map]; exact List.map_id'' (fun _ => rfl) tasks
+      rw [this]; exact hnd
+    exact foldl_parseStep_vals w (parsedOf w tasks) hpn _ [] d h (hp.nodup_iff.2 (nodup_dedup _)) (by simp)
+      (by intro n1 _ n2 _ hne c1 c2 hc1 hc2; exact hnc n1 n2 c1 c2 hne hc1 hc2) (by simp) (by simp)
+  · intro ho
+    obtain ⟨e, he, rfl⟩ := List.mem_map.1 ho
+    exact hs.2 e he
+  · intro ho
+    obtain ⟨k, hk⟩ := C13_ids_total_partial enum w tasks d hperm hnc h o ho
+    exact List.mem_map.2 ⟨(k, o), hk, rfl⟩
+
 /-- **C13_dup_id_fails.** If two functions of one repeated name get the same id — equal explicit ids,
 argument values that stringify equally such as `1` and `"1"` or `True` and `"True"` — parsing fails
 (`ValueError`), whatever the iteration order; the functions are not silently merged. -/
@@ -209,6 +232,35 @@ theorem C13_hooks_disjoint_prefix (w : World) (path : Path) (m : Module) (p : Pa
       obtain ⟨_, rfl, rfl⟩ := he
       simpa using hc
     · simp [hc] at he
+
+/-- **C13_prefix_exact.** The prefix hook reports exactly the module attributes (one per name: the last
+binding) that are unmarked functions and whose name starts with `task_` — each exactly once
+(`C13_prefix_once`). -/
+theorem C13_prefix_exact (w : World) (path : Path) (m : Module) (p : Path) (b : String) (o : ObjId) :
+    Report.succ p b o ∈ prefixReports w path m ↔
+      (p = path ∧ (b, Obj.fn o) ∈ nsFinal m.ns ∧ isMarked w o = false ∧ isTaskName b = true) := by
+  unfold prefixReports
+  constructor
+  · intro h
+    obtain ⟨e, hm, he⟩ := List.mem_filterMap.1 h
+    unfold prefixMember at he
+    cases hobj : e.2 with
+    | value => simp [hobj] at he
+    | fn id =>
+      simp only [hobj] at he
+      by_cases hc : (!isMarked w id && isTaskName e.1) = true
+      · simp only [hc, ↓reduceIte, Option.some.injEq, Report.succ.injEq] at he
+        obtain ⟨rfl, rfl, rfl⟩ := he
+        have : e = (e.1, Obj.fn id) := by rw [← hobj]
+        rw [this] at hm
+        exact ⟨rfl, hm, by simpa using hc⟩
+      · simp [hc] at he
+  · rintro ⟨rfl, hm, h1, h2⟩
+    exact List.mem_filterMap.2 ⟨(b, Obj.fn o), hm, by simp [prefixMember, h1, h2]⟩
+
+theorem C13_prefix_once (w : World) (path : Path) (m : Module) :
+    ((prefixReports w path m).filterMap Report.key).Nodup :=
+  (prefix_keys w path _ (nsFinal_keys_nodup m.ns)).1
 
 theorem C13_hooks_disjoint_decorator (enum : List String → List String) (w w' : World) (path : Path) (rs : List Report)
     (h : decoratorReports enum w path = (w', some rs)) (p : Path) (b : String) (o : ObjId) (hr : Report.succ p b o ∈ rs) :
